@@ -537,10 +537,63 @@ func testsEofFirst(w *World, fn *ssa.Function, scan *ssa.Function, depth int) bo
 
 func ruleR17_4(w *World, r *Report) {
 	r.Rule("R17.4", "in the formula parser, between the call that consumes a token and a following call that parses an operand, the end-of-input flag is tested (a missing right operand is an error, not an empty variable)", 4)
+	// the token reader: the method of the parser without parameters or results that advances the text scanner; the
+	// name is only the fallback
 	scan := w.Func("bf", "parser.scan")
+	for _, f := range w.Fns {
+		if w.PkgName(f) != "bf" || f.Signature.Recv() == nil || typeShort(f.Signature.Recv().Type()) != "*bf.parser" ||
+			f.Signature.Params().Len() != 0 || f.Signature.Results().Len() != 0 {
+			continue
+		}
+		for _, ci := range callsIn(f) {
+			if c, ok := ci.(*ssa.Call); ok && isScannerScan(c) {
+				scan = f
+			}
+		}
+	}
 	if scan == nil {
 		r.Unk("R17.4", "(*bf.parser).scan", "-", "method not found")
 		return
+	}
+	// checked readers: methods of the parser returning only an error that consume a token and answer nil only behind
+	// the outcome `not at the end of input` of a test made after the token was consumed (`scanOperand()`)
+	checked := map[*ssa.Function]bool{}
+	for _, h := range w.Fns {
+		if w.PkgName(h) != "bf" || h.Signature.Recv() == nil || typeShort(h.Signature.Recv().Type()) != "*bf.parser" ||
+			h.Signature.Results().Len() != 1 || !isErrorType(h.Signature.Results().At(0).Type()) {
+			continue
+		}
+		var sc *ssa.Call
+		for _, ci := range callsIn(h) {
+			if c, ok := ci.(*ssa.Call); ok && w.staticCalleeIs(c, scan) {
+				sc = c
+			}
+		}
+		if sc == nil {
+			continue
+		}
+		okAll, rets := true, 0
+		allInstrs(h, func(ins ssa.Instruction) {
+			ret, isRet := ins.(*ssa.Return)
+			if !isRet || len(ret.Results) != 1 || !isNilConst(ret.Results[0]) {
+				return
+			}
+			rets++
+			tested := false
+			for _, ec := range dominatingConds(ret.Block()) {
+				if ld, isL := ec.Cond.(*ssa.UnOp); isL && ld.Op == token.MUL && !ec.True {
+					if _, f, _, okF := fieldOf(ld.X); okF && f == "eof" && (ec.If.Block() == sc.Block() || sc.Block().Dominates(ec.If.Block())) {
+						tested = true
+					}
+				}
+			}
+			if !tested {
+				okAll = false
+			}
+		})
+		if okAll && rets > 0 {
+			checked[h] = true
+		}
 	}
 	n := 0
 	for _, fn := range w.Fns {
@@ -555,6 +608,10 @@ func ruleR17_4(w *World, r *Report) {
 		sites := 0
 		for _, ci := range callsIn(fn) {
 			sc, ok := ci.(*ssa.Call)
+			if ok && sc.Call.StaticCallee() != nil && checked[sc.Call.StaticCallee()] {
+				sites++ // consumed and tested by the checked reader
+				continue
+			}
 			if !ok || !w.staticCalleeIs(sc, scan) {
 				continue
 			}
@@ -1373,6 +1430,7 @@ func ruleR18_9(w *World, r *Report) {
 func ruleR14_4(w *World, r *Report) {
 	r.Rule("R14.4", "in the conflict analysers, a loop that walks the trail backwards (index decremented, then used) either tests the index against 0 or searches for a member of a marked set whose remaining population is kept positive by the enclosing loop (`for nbLvl > 1`)", 2)
 	n := 0
+	perFn := map[*ssa.Function]int{}
 	for _, fn := range conflictAnalysers(w) {
 		for _, h := range loopHeaders(fn) {
 			body := loopBlocks(fn, h)
@@ -1425,7 +1483,8 @@ func ruleR14_4(w *World, r *Report) {
 				continue
 			}
 			n++
-			key := fmt.Sprintf("%s backward trail walk #%d", w.FuncName(fn), n)
+			perFn[fn]++
+			key := fmt.Sprintf("%s backward trail walk #%d", w.FuncName(fn), perFn[fn])
 			// evidence A: the index (or its phi) is compared with 0 somewhere in the loop
 			evid := ""
 			for b := range body {
@@ -1920,7 +1979,36 @@ func ruleR1_13(w *World, r *Report) {
 
 func ruleR2_10(w *World, r *Report) {
 	r.Rule("R2.10", "in the parse-time simplifier of cardinality constraints, every trip of the literal scan that lowers the local copy of the degree and goes on scanning also lowers the degree stored in the constraint by the same amount (the constraint that stays in the problem must ask for what is left to satisfy)", 1)
+	// the method that changes the stored degree: the method of *Clause with one int parameter and no result that
+	// adds its parameter to a field; the name is only the fallback
 	upd := w.Func("solver", "Clause.updateCardinality")
+	for _, f := range w.Fns {
+		if w.PkgName(f) != "solver" || f.Signature.Recv() == nil || typeShort(f.Signature.Recv().Type()) != "*solver.Clause" ||
+			f.Signature.Params().Len() != 1 || f.Signature.Results().Len() != 0 || typeShort(f.Signature.Params().At(0).Type()) != "int" || len(f.Params) != 2 {
+			continue
+		}
+		adds := false
+		allInstrs(f, func(ins ssa.Instruction) {
+			st, ok := ins.(*ssa.Store)
+			if !ok {
+				return
+			}
+			if _, isFA := st.Addr.(*ssa.FieldAddr); !isFA {
+				return
+			}
+			if bo, isB := st.Val.(*ssa.BinOp); isB && bo.Op == token.ADD {
+				if cv, isC := bo.Y.(*ssa.Convert); isC && cv.X == ssa.Value(f.Params[1]) {
+					adds = true
+				}
+				if bo.Y == ssa.Value(f.Params[1]) {
+					adds = true
+				}
+			}
+		})
+		if adds {
+			upd = f
+		}
+	}
 	cardFn := w.Func("solver", "Clause.Cardinality")
 	if upd == nil || cardFn == nil {
 		r.Unk("R2.10", "(*solver.Clause).updateCardinality / Cardinality", "-", "method not found")
